@@ -104,8 +104,6 @@ def opened_as_local(target):
 
 _A = dict(props=["C17"], assumed=True, note="ASSUMED: uninterpreted opener (a function of cfg and the target)")
 contract(R + "_open_file_link", args={"cfg": CFG, "zo_path": PATH, "link": T.str()}, result_is="opened_as_page(cfg, link)", **_A)
-contract(R + "_open_global_link", args={"cfg": CFG, "id_link": T.str()}, result_is="opened_as_global(cfg, id_link)", **_A)
-contract(R + "_open_rid_link", args={"cfg": CFG, "rid_link": T.str()}, result_is="opened_as_reference(cfg, rid_link)", **_A)
 contract(R + "_open_url_link", args={"cfg": CFG, "url_link": T.str()}, result_is="opened_as_url(cfg, url_link)", **_A)
 contract(R + "_open_cite_key_link", args={"zdir": PATH, "z_cite_key": T.str()}, result_is="opened_as_cite(zdir, z_cite_key)", **_A)
 
@@ -118,9 +116,18 @@ def _stub_open_zid(interp, args, kwargs):
     return interp.call(interp.wrap_global(opened_as_zid), [args[0], args[1]], {})
 
 
+def _stub_open_global(interp, args, kwargs):
+    return interp.call(interp.wrap_global(opened_as_global), [args[0], args[1]], {})
+
+
+def _stub_open_reference(interp, args, kwargs):
+    return interp.call(interp.wrap_global(opened_as_reference), [args[0], args[1]], {})
+
+
 contract(
     R + "_open_link", props=["C17"], args={"cfg": CFG, "target": T.str()}, returns=T.int(),
-    stubs={R + "_open_local_link": _stub_open_local, R + "_open_zid_link": _stub_open_zid},
+    stubs={R + "_open_local_link": _stub_open_local, R + "_open_zid_link": _stub_open_zid, R + "_open_global_link": _stub_open_global,
+           R + "_open_rid_link": _stub_open_reference},
     # ID / RID / URL names are identifiers: they never contain the local-link marker `[^` (a word such as `[#[^x]]` is outside the
     # statement's vocabulary and is left open)
     ensures={
@@ -130,5 +137,60 @@ contract(
         "reference-link": "implies(target.startswith('[@') and target.endswith(']') and '[^' not in target, result == opened_as_reference(cfg, target))",
         "named-URL-link": "implies(target.startswith('[!') and target.endswith(']') and '[^' not in target, result == opened_as_url(cfg, target))",
         "bare-ZID": "implies(not target.startswith('[') and not target.startswith('z::') and not ('[^' in target and ']' in target), result == opened_as_zid(cfg, target))",
+    },
+)
+
+
+# ---------------------------------------------------------------------------------------------------------------
+# _open_rid_link: the index lookup is a stub returning the 0..2 indexed notes that carry the RID (ghost `owners`: their pages).
+# The statement: a RID target resolves to the page of the indexed note that owns it; only protocol messages are answered.
+# ---------------------------------------------------------------------------------------------------------------
+def _rid_prelude(interp, loc):
+    import z3
+
+    ctx = interp.ctx
+    n = 0
+    while n < 2 and ctx.branch(ctx.fresh(f"rid_owner_{n}", z3.BoolSort()), f"more than {n} notes carry the RID"):
+        n += 1
+    ctx.ghost["user"] = {"owners": [PATH.fresh(ctx, f"owner_page{i}") for i in range(n)]}
+
+
+def _stub_notes_by_id(interp, args, kwargs):
+    """ASSUMED note_utils.get_notes_by_id(zdir, db_url, id, id_key=...): the indexed notes that carry the property (their pages: ghost
+    `owners`, at most 2 here); no output"""
+    from engine import sym
+
+    return [sym.Rec("Note", {"file_path": p}) for p in interp.ctx.ghost["user"]["owners"]]
+
+
+contract(
+    R + "_open_rid_link", props=["C17"], args={"cfg": CFG, "rid_link": T.str()}, returns=T.int(), prelude=_rid_prelude,
+    stubs={"zorg.service.note_utils:get_notes_by_id": _stub_notes_by_id},
+    requires={"a-reference-target": "rid_link.startswith('[@') and rid_link.endswith(']') and len(rid_link) >= 3"},
+    bounded_note="bounded-symbolic: at most 2 indexed notes carry the RID (pages and the RID fully symbolic)",
+    ensures={
+        "no-owner: one ECHO message, exit status 1": "implies(len(ghost('owners')) == 0, result == 1 and len(printed()) == 1 and printed()[0].startswith('ECHO '))",
+        "one-owner: EDIT the owner's page under the notes directory, then SEARCH the RID":
+            "implies(len(ghost('owners')) == 1, result == 0 and printed() == ['EDIT ' + str(page_path(cfg.zettel_dir, ghost('owners')[0])), "
+            "'SEARCH RID::' + rid_link[2:len(rid_link) - 1] + SEARCH_END])",
+        "several-owners: nothing is opened - one ECHO message, exit status 1":
+            "implies(len(ghost('owners')) > 1, result == 1 and len(printed()) == 1 and printed()[0].startswith('ECHO '))",
+    },
+)
+
+
+# _open_global_link: same stub; several notes of ONE page still open that page (the statement: the page of the note that owns the ID)
+contract(
+    R + "_open_global_link", props=["C17"], args={"cfg": CFG, "id_link": T.str()}, returns=T.int(), prelude=_rid_prelude,
+    stubs={"zorg.service.note_utils:get_notes_by_id": _stub_notes_by_id},
+    requires={"a-global-target": "id_link.startswith('[#') and id_link.endswith(']') and len(id_link) >= 3"},
+    bounded_note="bounded-symbolic: at most 2 indexed notes carry the ID (pages and the ID fully symbolic)",
+    ensures={
+        "no-owner: one ECHO message, exit status 1": "implies(len(ghost('owners')) == 0, result == 1 and len(printed()) == 1 and printed()[0].startswith('ECHO '))",
+        "owners-on-one-page: EDIT that page under the notes directory, then SEARCH the ID":
+            "implies(len(ghost('owners')) >= 1 and all(p == ghost('owners')[0] for p in ghost('owners')), result == 0 and printed() == ["
+            "'EDIT ' + str(page_path(cfg.zettel_dir, ghost('owners')[0])), 'SEARCH ID::' + id_link[2:len(id_link) - 1] + SEARCH_END])",
+        "owners-on-several-pages: nothing is opened - one ECHO message, exit status 1":
+            "implies(len(ghost('owners')) > 1 and not all(p == ghost('owners')[0] for p in ghost('owners')), result == 1 and len(printed()) == 1 and printed()[0].startswith('ECHO '))",
     },
 )
